@@ -191,3 +191,70 @@ func occCallsTo(fn, target *ssa.Function, stop func(*ssa.Function) bool) []an.Oc
 func occArg(o an.Occ, i int) string {
 	return o.Path(o.In.(*ssa.Call).Call.Args[i])
 }
+
+// ownerTypes: the (canonical) receiver type a function belongs to — its own,
+// or, for a free function, those of the module functions calling it (three
+// levels up). Used to attribute a construct to a component without looking
+// at file names, which change when code is moved.
+func ownerTypes(c *core.Ctx, fn *ssa.Function) map[string]bool {
+	callers := callerIndex(c)
+	out := map[string]bool{}
+	seen := map[*ssa.Function]bool{}
+	var walk func(f *ssa.Function, depth int)
+	walk = func(f *ssa.Function, depth int) {
+		for f.Parent() != nil {
+			f = f.Parent()
+		}
+		if o := f.Origin(); o != nil {
+			f = o
+		}
+		if seen[f] || depth > 3 {
+			return
+		}
+		seen[f] = true
+		if t := recvTypeName(f); t != "" {
+			out[t] = true
+			return
+		}
+		for _, g := range callers[f] {
+			walk(g, depth+1)
+		}
+	}
+	walk(fn, 0)
+	return out
+}
+
+var callerIdx = map[*core.Program]map[*ssa.Function][]*ssa.Function{}
+
+func callerIndex(c *core.Ctx) map[*ssa.Function][]*ssa.Function {
+	if idx, ok := callerIdx[c.P]; ok {
+		return idx
+	}
+	idx := map[*ssa.Function][]*ssa.Function{}
+	for _, f := range c.P.ModFuncs {
+		for _, ci := range calls(f) {
+			if g := an.StaticCallee(ci.Common()); g != nil && c.P.InModule(g) {
+				if o := g.Origin(); o != nil {
+					g = o
+				}
+				idx[g] = append(idx[g], f)
+			}
+		}
+		// function values handed on (method values, helpers passed to slices.*Func)
+		an.Instrs(f, func(in ssa.Instruction) {
+			for _, op := range in.Operands(nil) {
+				if op == nil || *op == nil {
+					continue
+				}
+				if g, ok := (*op).(*ssa.Function); ok && c.P.InModule(g) {
+					if _, isCall := in.(ssa.CallInstruction); isCall && an.StaticCallee(in.(ssa.CallInstruction).Common()) == g {
+						continue
+					}
+					idx[g] = append(idx[g], f)
+				}
+			}
+		})
+	}
+	callerIdx[c.P] = idx
+	return idx
+}
